@@ -61,7 +61,10 @@ impl Tier {
 
 /// Run `f`, turning a panic into `Err(message @ location)`.
 pub fn catch<R>(f: impl FnOnce() -> R) -> Result<R, String> {
-    match std::panic::catch_unwind(std::panic::AssertUnwindSafe(f)) {
+    IN_CATCH.with(|c| c.set(c.get() + 1));
+    let r = std::panic::catch_unwind(std::panic::AssertUnwindSafe(f));
+    IN_CATCH.with(|c| c.set(c.get() - 1));
+    match r {
         Ok(r) => Ok(r),
         Err(e) => {
             let msg = if let Some(s) = e.downcast_ref::<&str>() {
@@ -83,6 +86,8 @@ pub fn catch<R>(f: impl FnOnce() -> R) -> Result<R, String> {
 thread_local! {
     pub static LAST_PANIC_LOCATION: std::cell::RefCell<Option<String>> = const { std::cell::RefCell::new(None) };
     pub static QUIET_PANICS: std::cell::Cell<bool> = const { std::cell::Cell::new(true) };
+    /// depth of `catch` scopes on this thread: panics outside any scope are harness bugs
+    pub static IN_CATCH: std::cell::Cell<u32> = const { std::cell::Cell::new(0) };
 }
 
 /// Install a panic hook that records the location (for `catch`) and stays silent.
@@ -93,8 +98,13 @@ pub fn install_panic_hook() {
             .location()
             .map(|l| format!("{}:{}", l.file(), l.line()));
         LAST_PANIC_LOCATION.with(|l| *l.borrow_mut() = loc);
-        if !QUIET_PANICS.with(|q| q.get()) {
+        if !QUIET_PANICS.with(|q| q.get()) || IN_CATCH.with(|c| c.get()) == 0 {
+            // a panic outside the code under test is a machinery failure, never a verdict
             default(info);
+            if IN_CATCH.with(|c| c.get()) == 0 {
+                eprintln!("MACHINERY-ERROR: harness panicked (see above)");
+                std::process::exit(EXIT_MACHINERY);
+            }
         }
     }));
 }
